@@ -159,7 +159,7 @@ pub fn gen_cfg(t: &mut Tape) -> DefCfg {
 
 /// one-shot compression with `A` (used to obtain encoder output as decoder input)
 pub fn deflate_oneshot<A: Z>(cfg: &DefCfg, data: &[u8], dict: Option<&[u8]>) -> Option<Vec<u8>> {
-    let mut strm = zs();
+    let mut strm = zs_for::<A>();
     let rc = unsafe { A::deflateInit2(&mut strm, cfg.level, 8, cfg.window_bits_arg(), cfg.mem_level, cfg.strategy) };
     if rc != Z_OK {
         return None;
@@ -190,7 +190,7 @@ pub fn deflate_oneshot<A: Z>(cfg: &DefCfg, data: &[u8], dict: Option<&[u8]>) -> 
 /// a stream made of several deflate calls: `cuts` are input positions after which `flush` is requested
 /// (Z_SYNC_FLUSH / Z_FULL_FLUSH leave the 00 00 FF FF marker inflateSync searches for), Z_FINISH at the end
 pub fn deflate_flushed<A: Z>(cfg: &DefCfg, data: &[u8], cuts: &[usize], flush: c_int) -> Option<Vec<u8>> {
-    let mut strm = zs();
+    let mut strm = zs_for::<A>();
     let rc = unsafe { A::deflateInit2(&mut strm, cfg.level, 8, cfg.window_bits_arg(), cfg.mem_level, cfg.strategy) };
     if rc != Z_OK {
         return None;
